@@ -14,6 +14,9 @@ def canon6(text):
         return None
 
 
+INET_ATON_FORMS = ["1.2.3", "1.2.3:80", "127.1", "1", "0x7f.0.0.1", "010.1.1.1", "01.2.3.4", "1.2.3.04", "2130706433", "127.1:8080"]
+
+
 class C19(Spec):
     pid = "C19"
     area = "net"
@@ -23,14 +26,14 @@ class C19(Spec):
     rule = ("dotted quads (boundary octets 0,1,9,10,99,100,127,199,200,249,250,255), IPv6 literals in full, compressed, "
             "loopback, any, IPv4-mapped and zero-run forms in brackets, the aliases * and localhost, each without a port, "
             "with ports 0,1,79,80,81,1023,1024,65534,65535 and random ones, and with garbled ports (empty, non-numeric, "
-            "negative, 65536, 99999, overflowing, signed, blank-prefixed, leading zeros), stray/missing brackets and colons; "
+            "negative, 65536, 99999, overflowing, signed, blank-prefixed, with trailing bytes or a NUL, leading zeros), stray/missing brackets and colons, text in front of the opening and behind the closing bracket; "
             "Port(text) alone over the same port texts. The real libc is behind the implementation; the model's libc "
             "stand-ins are a strict dotted-quad reader and the canonical IPv6 text from the C library's inet_pton/inet_ntop (via Python's socket module), so "
             "every run also validates the theorems' hypotheses on the conversions. Oracle: accepted literals report the "
             "same host, the given port or 80, the right family, and print to a text that parses back to the same address. "
             "non-trivial = text with a port or an IPv6 literal; distinct by case line")
-    assumptions = ["names other than the aliases are not resolved (offline); inet_aton short forms (127.1) are outside the domain",
-                   "inputs strtol accepts beyond plain digits (' 80', '+80', '-0', '080') are compared with the model, asserted neither way"]
+    assumptions = ["names other than the aliases are not resolved (offline); the host part of a non-bracketed text goes to getaddrinfo, which also takes host names and the inet_aton short forms (127.1, 0x7f.1, 010.1.1.1): compared with the model's stand-in only for strict dotted quads",
+                   "leading zeros in a port ('080') are digits and accepted"]
 
     def __init__(self):
         self.expect = {}
@@ -60,6 +63,30 @@ class C19(Spec):
                 self.add(cases, "%s:%d" % (h, p), "-", (4, fam_host, p))
             bp = rng.choice(bad_ports)
             self.add(cases, "%s:%s" % (h, bp), "-", None)
+        # not plain digits: rejected since fix 527e16f (strtol alone let blanks, a sign and "-0" through)
+        nondigit_ports = ["+80", " 80", "\t80", "-0", "80 ", "80x", "0x50", "1e3", "8 0", "-1", "+0", " 0", "\n80", "80\x00", "\x0080"]
+        for h in ["127.0.0.1", "*", "localhost", "10.0.0.1"]:
+            for bp in nondigit_ports:
+                self.add(cases, "%s:%s" % (h, bp), "-", "reject")
+        for h in ["::1", "2001:db8::1"]:
+            c = canon6(h)
+            for bp in nondigit_ports:
+                self.add(cases, "[%s]:%s" % (h, bp), pv.hexs(c), "reject")
+        # text around a bracketed literal: rejected since fix 83c8d5e (before: the host came from the wrong place, a port
+        # written without its colon was dropped, "[]" aborted)
+        for h in ["::1", "::", "2001:db8::1", "::ffff:1.2.3.4", "1:2:3:4:5:6:7:8"]:
+            c = canon6(h)
+            for pre in ["x", " ", "0", ":", ".", "*", "/", "1.2.3.4", "1.2.3.4:", "localhost", "http://", "\t", "a b", "x::2", "ab::1.2.3.4"]:
+                for tail in ["", ":80", ":8080", ":0", ":65535"]:
+                    self.add(cases, "%s[%s]%s" % (pre, h, tail), pv.hexs(c), "reject")
+            for post in ["x", "]", "\n", "80", "8080", " ", "x80", "/"]:
+                self.add(cases, "[%s]%s" % (h, post), pv.hexs(c), "reject")
+        # IPv4 short / octal / hex forms that getaddrinfo takes like inet_aton: not dotted quads, accepted with ANOTHER host than written
+        # (open finding C19-inet-aton-forms; named input by input)
+        for w in INET_ATON_FORMS:
+            self.add(cases, w, "-", "reject")
+        for junk in ["[]", "[]:80", "[]x", "[", "]", "][", "]:80["]:
+            self.add(cases, junk, "-", "reject")
         for h in ["127.0.0.1", "*", "localhost"]:
             for bp in wrap_ports:
                 self.add(cases, "%s:%s" % (h, bp), "-", "reject")
@@ -94,12 +121,18 @@ class C19(Spec):
         if impl.startswith(("CRASH", "HANG")):
             return "net harness %s on %s" % (impl, case)
         t = impl.split()
+        if t[0] == "P":
+            txt = pv.unhex(case.split()[1])
+            valid = len(txt) > 0 and all(48 <= c <= 57 for c in txt) and int(txt) <= 65535
+            if (t[1] == "ok") != valid or (valid and int(t[2]) != int(txt)):
+                return "Port(%r): %s, but the text %s a port in 0..65535 written in digits" % (txt, impl, "is" if valid else "is not")
+            return None
         if t[0] == "A" and t[1] == "err-other":
             return "malformed text rejected with something other than invalid_argument: %s" % pv.unhex(case.split()[1])
         exp = self.expect.get(case)
         if exp == "reject":
             if t[0] == "A" and t[1] == "ok":
-                return "a port outside 0..65535 was accepted: %s taken as port %s" % (pv.unhex(case.split()[1]), t[4])
+                return "a malformed text was accepted: %r taken as host %s port %s" % (pv.unhex(case.split()[1]), pv.unhex(t[3]), t[4])
             return None
         if exp is None or exp == "err":
             if t[0] == "A" and t[1] == "ok" and t[6] != "same":
